@@ -594,8 +594,14 @@ func init() {
 			if s, ok := c.args[0].(string); ok {
 				return s
 			}
+			if s, ok := c.args[0].(symStr); ok { // text built from symbolic client input is handed over as it is
+				return s
+			}
 			if vs, ok := c.args[0].([]value); ok && len(vs) > 0 { // variadic ...string
 				if s, ok := vs[0].(string); ok {
+					return s
+				}
+				if s, ok := vs[0].(symStr); ok {
 					return s
 				}
 			}
